@@ -318,6 +318,90 @@ def shard(sh):
     return st.result([drv])
 
 
+def all_instances(store):
+    """every section instance below the context: [(driver reference, SecState)] in declaration / instance order"""
+    out = []
+
+    def walk(sec, ref):
+        for o in sec.opts:
+            if o.decl.kind == 'sec':
+                for k, inst in enumerate(o.values):
+                    r = '%s/%s.%d' % (ref, o.decl.name.decode(), k)
+                    out.append((r, inst))
+                    walk(inst, r)
+    walk(store, 'A')
+    return out
+
+
+STATES2 = STATES[:3] + [b'mt a { sub { z = 1 } } mt b { } mt c { x = 3 } sub { m { l = {1} } m { } m { z = 9 } }']
+
+
+def shard_instances(sh):
+    """a filter choice for the context and for EVERY section instance independently (second and later instances, both
+    branches of the tree); the whole print is compared with the expected entry sequence"""
+    pfset, sidx, choices, firsts, deadline = sh
+    drv = get_driver('asan')
+    st = ShardStats('per-instance filters')
+    sch = schema(pfset)
+    drv.define_schema(sch.sid, sch.spec())
+    stext = STATES2[sidx]
+    m = reftext.meaning(sch, 0, stext)
+    assert m.verdict == ACCEPT, (stext, m.why)
+    store = m.store
+    insts = all_instances(store)
+    head = ['init A %s 0' % sch.sid, 'cb_quiet 1', 'parse_buf A ' + enc(stext)]
+    for k, names in FILTERS.items():
+        head.append('pffnames %d %s' % (k, ' '.join(enc(n) for n in names)))
+    for f0 in firsts:
+        cases, metas = [], []
+        for combo in itertools.product(choices, repeat=len(insts)):
+            own = {}
+            lines = list(head)
+            if f0:
+                lines.append('set_pff A %d' % f0)
+                own[id(store)] = set(FILTERS[f0])
+            for (ref, inst), f in zip(insts, combo):
+                if f:
+                    lines.append('set_pff %s %d' % (ref, f))
+                    own[id(inst)] = set(FILTERS[f])
+            lines.append('print A')
+            cases.append(Case(lines))
+            metas.append((own, (f0,) + combo))
+        for lo in range(0, len(cases), 2000):
+            results = drv.run(cases[lo:lo + 2000])
+            for c, r, (own, combo) in zip(cases[lo:lo + 2000], results, metas[lo:lo + 2000]):
+                st.evaluations += 1
+                st.transitions += 1
+                st.validated += 1
+                script = 'schema %s %s\n%s' % (sch.sid, sch.spec(), c.script())
+                if r.status in ('crash', 'hang'):
+                    st.violation('%s:%s' % (r.status, engine.sanitizer_summary(r.info)), script, '', engine.excerpt(r.info))
+                    continue
+                outs = r.all('out ')
+                if len(outs) != 1:
+                    st.violation('protocol', script, '1 print', r.text()[-300:])
+                    continue
+                text = dec(outs[0].split(' ')[2])
+                st.outcome(outs[0])
+                st.nontriv(outs[0])
+                filters_of = lambda s_, own=own: own.get(id(s_))
+                exp = rel(entries(store, own.get(id(store)), 0, filters_of))
+                got, badline = reduce_output(text)
+                if got is None:
+                    st.violation('unrecognised-line', script, 'a line of one of the known shapes', repr(badline))
+                    continue
+                if len(exp) != len(got) or not all(same(e, g) for e, g in zip(exp, got)):
+                    st.violation('print-structure:per-instance-filters', script, '\n'.join(map(str, exp)), '\n'.join(map(str, got)) + '\n--- raw:\n' + text.decode('latin-1'))
+            if time.time() > deadline:
+                st.complete = False
+                break
+        if not st.complete:
+            break
+    if not st.samples:
+        st.samples.append({'state': stext.decode('latin-1'), 'section_instances': [r for r, _ in insts], 'filter_choices_per_instance': list(choices)})
+    return st.result([drv])
+
+
 def main():
     ck = engine.Check(PID)
     if ck.replay:
@@ -330,6 +414,23 @@ def main():
         pfsets += [frozenset(c) for c in itertools.combinations(PF_SLOTS, n)]
     shards = [([p], ck.deadline) for p in pfsets]
     engine.phase(ck, 'print-callback subsets x 4 states x 64 filter combinations', shard, shards, subsets=len(pfsets))
+    # a filter choice per section instance, independently (later instances, both branches)
+    cap = 7000 if quick else 1100000
+    shards = []
+    plan = []
+    for sidx in range(len(STATES2)):
+        n = len(all_instances(reftext.meaning(schema(frozenset()), 0, STATES2[sidx]).store))
+        choices = [c for c in ((0, 1, 2, 3), (0, 1, 3), (0, 3)) if len(c) ** n <= cap][0]
+        plan.append({'state': sidx, 'section_instances': n, 'choices_per_instance': len(choices)})
+        for pfset in (frozenset(), frozenset(PF_SLOTS)):
+            for f0 in (0, 1, 2, 3):
+                shards.append((pfset, sidx, choices, [f0], ck.deadline))
+    engine.phase(ck, 'a filter choice for the context and for every section instance independently x 4 states x {no, all} print callbacks',
+                 shard_instances, shards, plan=plan)
+    if not quick:
+        rest = [frozenset(c) for n in (5, 6) for c in itertools.combinations(PF_SLOTS, n)]
+        engine.phase(ck, 'the remaining print-callback subsets (5 and 6 options) x 4 states x 64 filter combinations', shard, [([p_], ck.deadline) for p_ in rest],
+                     subsets=len(rest))
     ck.assumptions = ['exact spacing, brace placement and number formatting are not compared (floats: any numeral); what follows "# name=" for an '
                       'unset option is formatting', 'no annotations in these schemas (annotation lines belong to C15 / C05)']
     ck.finish('schema variant (subset of print callbacks) x state x filter per nesting level (none / 3 name sets); non-trivial = distinct outputs')
